@@ -82,6 +82,24 @@ COMMON_TB = [
 ]
 
 PROPS = {
+    "C05": {
+        "harness": "c05", "driver": "snap",
+        "lean_modules": ["BleveModel.Props.Snapshot", "BleveModel.Props.C05"],
+        "rule": ("(a) introducer steps: on-disk and in-memory scorch histories (small merge plan, forced merges, 1 and 3 persister "
+                 "workers, safe/unsafe batches); every root swap reported by the verif hook is replayed on the Lean snapshot "
+                 "model: segment introductions must equal the model's result structurally (segments, document order, obsoleted "
+                 "numbers), merges and persists must keep the live ids and the one-live-document-per-id invariant. (b) layouts: "
+                 "the same history applied as one batch per op / one batch / random partitions, in memory, on disk with "
+                 "background merges, after ForceMerge, after close+reopen, with 3 persister workers in unsafe mode, as zap v15-17; "
+                 "random requests (C02 query trees x 4 sorts x facets x fields x highlight x locations, score on/none) compared "
+                 "bit for bit (ids, order, sort keys, fields, locations, fragments, facets, score bits) with the first layout. "
+                 "non-trivial = steps with a non-empty previous root / requests with hits"),
+        "trusted_base": COMMON_TB + ["zapx MergeUsing / segment persistence", "float evaluation is deterministic for equal inputs in equal order"],
+        "assumptions": ["sorts are made total by a trailing _id key (tie order is layout dependent by design)", LEVEL_NOTE],
+        "floors": {"introducer/segment": 20, "introducer/persist": 5, "layout/disk-forcemerge": 20, "layout/disk-reopened": 20, "scores/disk-forcemerge": 10},
+        "thorough_shards": 8,
+        "classify": lambda m: m.get("cat", "").split("/")[0] if m.get("cat", "").startswith("scored-") else m.get("cat", ""),
+    },
     "C20": {
         "harness": "c20", "driver": "c20",
         "lean_modules": ["BleveModel.Props.C20"],
